@@ -2,6 +2,7 @@ package replication
 
 import (
 	"fmt"
+	"sync"
 
 	"github.com/pkg/errors"
 	"google.golang.org/grpc"
@@ -22,11 +23,18 @@ type GRPCReplicationServer struct {
 	CertKeyFile string
 	// Key: IPAddr (e.g. "192.125.18.1:25"), Value: channel for messages sent to each gRPC stream
 	StreamChannels map[string]chan []byte
+	// mu guards StreamChannels and streamDone: streams come and go on gRPC goroutines while the sender
+	// goroutine iterates over the map
+	mu sync.Mutex
+	// streamDone holds, per registered channel, a channel that is closed when the stream ends, so that a
+	// message is never sent to (and the sender never blocks on) a stream that has gone away
+	streamDone map[chan []byte]chan struct{}
 }
 
 func NewGRPCReplicationServer() *GRPCReplicationServer {
 	return &GRPCReplicationServer{
 		StreamChannels: map[string]chan []byte{},
+		streamDone:     map[chan []byte]chan struct{}{},
 	}
 }
 
@@ -50,7 +58,11 @@ func (rs *GRPCReplicationServer) GetWALStream(_ *pb.GetWALStreamRequest, stream 
 	log.Info(fmt.Sprintf("new replica connection from:%s", clientAddr))
 
 	streamChannel := make(chan []byte, defaultReplicationStreamChannelSize)
+	done := make(chan struct{})
+	rs.mu.Lock()
 	rs.StreamChannels[clientAddr] = streamChannel
+	rs.streamDone[streamChannel] = done
+	rs.mu.Unlock()
 
 	// infinite loop
 	for {
@@ -71,8 +83,16 @@ func (rs *GRPCReplicationServer) GetWALStream(_ *pb.GetWALStreamRequest, stream 
 
 	// when an error occurred / client connection is closed, close the channel
 	verifhook.At("repl.stream.closing")
-	delete(rs.StreamChannels, clientAddr)
-	close(streamChannel)
+	rs.mu.Lock()
+	// a newer stream from the same address may have replaced this one in the map
+	if rs.StreamChannels[clientAddr] == streamChannel {
+		delete(rs.StreamChannels, clientAddr)
+	}
+	delete(rs.streamDone, streamChannel)
+	rs.mu.Unlock()
+	// the message channel itself is left open (a concurrent fan-out may still hold it); closing done
+	// releases any sender waiting on it
+	close(done)
 	log.Info(fmt.Sprintf("[master] closed replication connection: %v", clientAddr))
 
 	return nil
@@ -80,9 +100,24 @@ func (rs *GRPCReplicationServer) GetWALStream(_ *pb.GetWALStreamRequest, stream 
 
 func (rs *GRPCReplicationServer) SendReplicationMessage(transactionGroup []byte) {
 	// send a replication message to each replica
+	type target struct {
+		ip      string
+		channel chan []byte
+		done    chan struct{}
+	}
+	rs.mu.Lock()
+	targets := make([]target, 0, len(rs.StreamChannels))
 	for ip, channel := range rs.StreamChannels {
-		log.Debug("sending a replication message to %s", ip)
+		targets = append(targets, target{ip: ip, channel: channel, done: rs.streamDone[channel]})
+	}
+	rs.mu.Unlock()
+
+	for _, t := range targets {
+		log.Debug("sending a replication message to %s", t.ip)
 		verifhook.At("repl.fanout.send")
-		channel <- transactionGroup
+		select {
+		case t.channel <- transactionGroup:
+		case <-t.done:
+		}
 	}
 }
